@@ -227,6 +227,7 @@ struct Thread {
   int expect_uid = -1;    // simulated process the op may signal / reap
   uint32_t ncalls[2][K_COUNT];
   uint32_t op_calls = 0;
+  uint64_t op_read_bytes = 0;  // bytes read() has handed to the library so far in this API call
   bool op_parked = false;
   int64_t op_parked_ns = 0;
   int next_spec = -1;     // child spec to attach at exec / fork-child end
